@@ -38,6 +38,14 @@ Further batches (each with required branch counters):
     `simulator_selection_history_independent` / `processor_selection_history_independent`); direct oracle: a FRESH
     object given only the selection in force;
   * superposed inputs are now compared with the code-shaped model `PM.C04.probsSvdGen` as well as the specification.
+  * detector-trim batch: layouts with a threshold / pseudo-PNR detector at the default and explicit precisions against
+    `PM.C04.probsSvdDetθ` (tight) and against the specification within `physical_perf_trim_bound_detectors`,
+    `logical_perf_trim_bound_detectors`, `results_trim_bound_detectors`; direct oracle within the PROVED a-priori bound
+    (`trimmed_mass_apriori` / `trimmed_mass_det_apriori`) computed here from the sizes only;
+  * superposed-trim batch: superposed inputs at the default and explicit precisions against `PM.C04.probsSvdGenθ`
+    (masked amplitudes, `_merge_sv` threshold; tight), against the exact masked model at threshold 0, and against the
+    specification within the distance given by the proved error distribution;
+  * early-exit batch: heralds a detector cannot report (`check_heralds_detectors`).
 The real code runs in a separate worker process: a native crash (or a hang) of the code under test on a legal
 input is reported as a violation with the configuration that triggers it instead of killing the harness.
 """
@@ -1292,6 +1300,53 @@ def judge_trim_sup(chk, cfg):
 
 
 # ------------------------------------------------------------------------------------------------
+# check_heralds_detectors: the early exit of probs_svd (PM.C04.checkHeraldsDetectors / probsSvdGuarded)
+# ------------------------------------------------------------------------------------------------
+def gen_guard_config(rng, max_m):
+    """a herald expecting 2 (or 3) photons on a mode whose detector may be unable to report that many"""
+    m = rng.randint(2, max_m)
+    k = rng.randrange(m)
+    v = rng.choice([2, 2, 3])
+    heralds = [[k, v]]
+    if m >= 3 and rng.random() < 0.4:
+        k2 = rng.choice([x for x in range(m) if x != k])
+        heralds.append([k2, rng.randint(0, 1)])
+    dets = [rng.choice([None, "pnr", "thr", ["ppnr", 2, None], ["ppnr", 3, 2], ["ppnr", 3, None]]) for _ in range(m)]
+    dets[k] = rng.choice(["thr", ["ppnr", 2, None], ["ppnr", 3, 2], ["ppnr", 3, 1], ["ppnr", 3, None], "pnr", None])
+    n = v + sum(x for _, x in heralds[1:]) + rng.randint(0, 1)
+    members = [{"w": 1.0, "state": gen_tagged_state(rng, m, min(n, 4), rng.choice([0, 1, 2]))}]
+    return {"kind": "sim", "backend": rng.choice(["SLOS", "Naive"]), "m": m, "circ": gen_circuit(rng, m),
+            "heralds": declare(rng, heralds), "ps": None, "psj": True, "filter": rng.randint(0, 1),
+            "keep": rng.random() < 0.5, "members": members, "dets": dets, "guard": True}
+
+
+def judge_guard(chk, cfg):
+    maxes = [det_max(d) for d in cfg["dets"]]
+    rep = chk.lean.ask({"op": "c04guard", "m": cfg["m"], "heralds": cfg["heralds"], "maxes": maxes})
+    if "err" in rep:
+        return ("broken", "lean-rejects", f"driver rejected the request: {rep['err']}")
+    if rep["ok"]:
+        chk.branch("guard-passes")
+        return judge(chk, {k: v for k, v in cfg.items() if k != "guard"})
+    chk.branch("guard-early-exit")
+    try:
+        real = chk.real.call("run_real", dict(cfg, members=cfg["members"]))
+    except Crash as e:
+        return crash_verdict(cfg, e, "Simulator.probs_svd")
+    if "err" in real:
+        return ("violation", "raises-" + real["err"], f"Simulator.probs_svd raised {real['err']}: {real['msg']}")
+    obs = real["obs"]
+    # the herald cannot be reported: nothing is retained; the code's convention is physical_perf 1, logical_perf 0
+    if obs["results"] or obs["logical"] != 0.0:
+        return ("violation", "incompatible-herald-retains",
+                f"herald {cfg['heralds']} cannot be reported by detectors {cfg['dets']} but probs_svd returned "
+                f"results {obs['results']} with logical_perf {obs['logical']!r}")
+    if obs["phys"] != 1.0:
+        return ("broken", "guard-model-vs-code", f"early exit returned physical_perf {obs['phys']!r}, model 1")
+    return None
+
+
+# ------------------------------------------------------------------------------------------------
 # sessions: one long-lived Simulator / Processor, selection changed between queries
 # (PM.C04.simStep / procStep; theorems simulator_selection_history_independent,
 #  processor_selection_history_independent)
@@ -1715,6 +1770,8 @@ def crash_verdict(cfg, e, where):
 
 def judge(chk, cfg):
     """-> None or (kind, signature, what)"""
+    if cfg.get("guard"):
+        return judge_guard(chk, cfg)
     if cfg.get("trimsup"):
         return judge_trim_sup(chk, cfg)
     if cfg.get("trim"):
@@ -2199,6 +2256,8 @@ REQUIRED = ["mask-path", "no-heralds", "herald-in-the-middle", "adjacent-heralds
             "trim-sup-changes-the-answer", "trim-sup-compared", "trim-sup-compared-component-dropped",
             "trim-sup-compared-component-dropped-at-default-precision",
             "trim-sup-compared-component-dropped-under-mask-retained", "trim-sup-compared-changes-the-answer",
+            # check_heralds_detectors
+            "guard-early-exit", "guard-passes",
             # sessions on one object
             "session-sim", "session-proc", "session-later-query-retains", "session-mask-mode-switched-off",
             "session-other-heralds-under-mask", "session-vacuum-after-masked-query", "session-postselection-cleared",
@@ -2212,19 +2271,25 @@ def run(chk: core.Check):
     chk.rule = ("random configurations through Simulator.probs_svd (tagged mixtures, a few superposed members) and "
                 "Processor.probs() (perfect and noisy sources, explicit and automatic filter) at precision 0, heralds "
                 "declared in any order, detector layouts none / PNR / threshold / pseudo-PNR / mixed, fresh objects and "
-                "objects that already answered another request; fast-path configurations at the default and at explicit "
-                "non-zero precisions (trimming model and proved bounds); sessions of 2-4 queries on one Simulator / "
+                "objects that already answered another request; fast-path, non-PNR-detector and superposed configurations at "
+                "the default and at explicit non-zero precisions (trimming models and proved bounds, a-priori bound from "
+                "sizes); heralds a detector cannot report (early exit); sessions of 2-4 queries on one Simulator / "
                 "Processor with selection changes in between (state-machine model); "
                 "distinct = distinct (entry point, engine, m, heralds with values in declaration order, filter, "
                 "post-selection, keep_heralds, input shape, detector layout, reused or not) signatures; "
                 "non-trivial = at least one heralded mode (the mask path is active)")
     chk.assumptions = [
-        "probability trimming is modelled for the fast path without detectors / with PNR detectors (trim batch: default "
-        "and explicit precisions); layouts with a non-PNR detector, superposed inputs, evolve and the sessions run at "
-        "precision=0 (threshold min_p=1e-16)",
-        "trim batch: when a compared quantity lies within 1e-6 (relative) of its threshold the floating-point comparison "
+        "probability trimming is modelled on every path of probs_svd and driven at the default and at explicit non-zero "
+        "precisions: fast path (trim batch), layouts with a non-PNR detector (detector-trim batch), superposed inputs "
+        "(superposed-trim batch); the plain batches, evolve and the sessions run at precision=0 (threshold min_p=1e-16)",
+        "trim batches: when a compared quantity lies within 1e-6 (relative) of its threshold the floating-point comparison "
         "of the implementation may fall on either side: only physical_perf is compared for such a case (counter "
         "trim-threshold-tie)",
+        "superposed-trim batch: the native StateVector drops amplitude components of modulus <= min_complex_component = "
+        "1e-6 whatever the precision (not modelled): a case whose model holds a non-zero amplitude below 1e-5 is compared "
+        "on physical_perf only (counter trim-sup-native-amplitude-cutoff); the failing-input verdict of that batch uses a "
+        "crude unproved amplitude bound (test device), the fast / detector batches use the PROVED a-priori bound "
+        "theta * (#members + #entries/10 [+ #detected patterns]) computed from sizes only",
         "sessions keep the circuit, the input of a processor, noise and precision fixed (C05's subject) and never "
         "configure a herald the detector on its mode cannot report",
         "the engines' unconditioned distributions are C02's subject; here the oracle is the exact Fock-space "
@@ -2234,7 +2299,8 @@ def run(chk: core.Check):
         "max_detections) are data of the specification here — Detector.detect itself is C08's subject; detectors are "
         "not combined with superposed input states",
         "a herald whose expected value exceeds what the detector on its mode can report (check_heralds_detectors' "
-        "early exit: empty results, physical_perf 1) is not generated",
+        "early exit: empty results, physical_perf 1, outside the property's quantifier) is generated by the early-exit "
+        "batch only and compared with the model of the exit",
         "when the photon filter can never pass after detection (exact physical_perf 0) the conditional "
         "logical_perf is undefined: only results, physical_perf and the product are compared",
         "the automatic filter of a perfect source is stored by the first probs(); the reuse phase does not change the "
@@ -2267,6 +2333,8 @@ def run(chk: core.Check):
             handle(chk, gen_trim_det_config(rng, max_m))
         for _ in range(chk.pick(110, 900) if on("trimsup") else 0):
             handle(chk, gen_trim_sup_config(rng, 4))
+        for _ in range(chk.pick(24, 200) if on("guard") else 0):
+            handle(chk, gen_guard_config(rng, 4))
         if on("malformed"):
             malformed(chk, rng, chk.pick(30, 300))
         chk.extra["real_code_worker_crashes"] = chk.real.crashes
